@@ -19,7 +19,7 @@ use crate::util::hash_str;
 
 pub struct C06;
 
-pub const TYPES: [(&str, &str); 7] = [
+pub const TYPES: [(&str, &str); 19] = [
     ("number", "5"),
     ("string", "\"s\""),
     ("boolean", "true"),
@@ -27,6 +27,20 @@ pub const TYPES: [(&str, &str); 7] = [
     ("array", "[1, \"e\"]"),
     ("process_command", "command(\"true\")"),
     ("process_result", "command(\"true\").run()"),
+    // further values of the same types (appended: composed replays index into this table):
+    // magnitudes, signs, fractions, non-finite numbers, empty / multi-byte / long text, array shapes
+    ("number:1e35", "100000000000000000000000000000000000"),
+    ("number:-1e32", "(0 minus 100000000000000000000000000000000)"),
+    ("number:1e-35", "0.00000000000000000000000000000000001"),
+    ("number:2.5", "2.5"),
+    ("number:-1", "(0 minus 1)"),
+    ("number:0", "0"),
+    ("number:NaN", "\"x\".to_number()"),
+    ("number:huge-literal", "9999999999999999999999999999999999999999999999999999999999999999999999999999999999999999999999999999999999999999999999999999999999999999999999999999999999999999999999999999999999999999999999999999999999999999999999999999999999999999999999999999999999999999999999999999999999999999999999999999999999999999999999999999999999999999"),
+    ("string:empty", "\"\""),
+    ("string:multi-byte", "\"\u{e9}\u{4e16}\u{1f30e}\""),
+    ("array:empty", "[]"),
+    ("array:nested", "[[1], [\"e\", [null]]]"),
 ];
 
 /// A route: prelude statements and the expression through which the value is visible.
@@ -404,7 +418,8 @@ impl Check for C06 {
             "(1) Bounded-exhaustive grid: {} sinks (both sides of every binary operator, unary operators, if/jasi \
              conditions, index base/value, index-assignment base/index/value, receiver and arguments of every \
              string/array/number/process method, every global built-in, interpolation, user call) x {} runtime \
-             types (number, string, boolean, null, array, process_command, process_result) x {} routes (parameter, \
+             values (number, string, boolean, null, array, process_command, process_result, and further numbers - 1e35, \
+             -1e32, 1e-35, 2.5, -1, 0, NaN, a 320-digit literal -, empty and multi-byte strings, empty and nested arrays) x {} routes (parameter, \
              array element, pop() result, function with mixed return types, nested element, dynamically typed \
              variable, captured variable reassigned with another type, plain reassignment with another type, \
              same-block redeclaration seen by an earlier-defined function), plus {} special shapes (member access \
